@@ -1,6 +1,6 @@
-"""C17 machinery: a Python replica of main.cpp's double arithmetic for the padded sizes (used
-only to *generate* configurations and to feed the model the same spacing_ps the program
-computes), generators of API-level and program-level cases, sanitizer-report parsing."""
+"""C17 machinery: inputs of the generated size model (Gen_ScalingZ) for API-level and program-level cases - the double
+spacing_ps is obtained by evaluating the expression the translator read from main() (lib/scaling_eval.py), the sizes
+by the extracted generated functions -, generators, sanitizer-report parsing."""
 import math, os, re, subprocess, struct, tempfile, shutil
 from concurrent.futures import ThreadPoolExecutor
 from fractions import Fraction
@@ -18,49 +18,74 @@ DEFAULTS = dict(GridSize=256, PhaseSpaceSize=12.0, RevolutionFrequency=9e6, Harm
                 SynchrotronFrequency=0.0, BendingRadius=-1.0, padding=8.0, RoundPadding=1)
 
 
-def main_spacing_ps(o):
-    """spacing_ps exactly as src/main.cpp computes it (all in double; float options promoted)"""
+def full_config(o):
+    """the options a configuration fixes: DEFAULTS overlaid by o.  Every option main()'s spacing_ps depends on is
+    passed on the command line (cfg_args), so the program's own defaults never enter"""
     d = dict(DEFAULTS)
-    d.update(o)
-    pqsize = f32(d["PhaseSpaceSize"])
-    sE, E0 = float(d["BeamEnergySpread"]), float(d["BeamEnergy"])
-    dE = sE * E0
-    f_rev = float(f32(d["RevolutionFrequency"]))
-    R_bend = d["BendingRadius"] if d["BendingRadius"] > 0 else C_LIGHT / (TWO_PI * f_rev)
-    H = float(f32(d["HarmonicNumber"]))
-    f_RF = f_rev * H
-    bunchspacing = 1.0 / f_RF
-    V_RF = float(d["AcceleratingVoltage"])
-    gamma = E0 / ME
-    V0 = QE * math.pow(gamma, 4) / (3 * EPS0 * R_bend)
-    V_eff = math.sqrt(V_RF * V_RF - V0 * V0)
-    fs = float(f32(d["SynchrotronFrequency"]))
-    a0 = float(f32(d["alpha0"]))
-    if fs == 0.0:
-        fs = f_rev * math.sqrt(a0 * H * V_eff / (TWO_PI * E0))
-    bl = C_LIGHT * dE / H / math.pow(f_rev, 2.0) / V_eff * fs
-    return bunchspacing * C_LIGHT / bl / pqsize
+    d.update({k: v for k, v in o.items() if not k.startswith("_")})
+    d.setdefault("BunchCurrent", [3e-3])
+    d["PhaseSpaceSize"] = f32(d["PhaseSpaceSize"])
+    for k in ("RevolutionFrequency", "HarmonicNumber", "SynchrotronFrequency", "alpha0"):
+        d[k] = f32(d[k])
+    return d
 
 
-def py_round(x):
-    return math.floor(x + 0.5) if x >= 0 else -math.floor(-x + 0.5)
+def main_spacing_ps(o):
+    """spacing_ps as src/main.cpp computes it: double-precision evaluation (lib/scaling_eval.py) of the expression
+    translate/scalingz2coq.py read from the current main() for the cut variable of the size model"""
+    import scaling_eval
+    cv = scaling_eval.cut_values(full_config(o))
+    if len(cv) != 1:
+        raise RuntimeError("the generated size model has %d cut variables (%s); the C17 generators expect one (spacing_ps)" % (len(cv), sorted(cv)))
+    return list(cv.values())[0]
 
 
-def main_sizes_double(n, nbuckets, sps, padding, roundp, pinned=False):
-    """the program's own double evaluation (std::round / std::ceil of double products)"""
-    def upt(v):
-        v = (v - 1) & (2 ** 64 - 1)
-        for s in (1, 2, 4, 8, 16, 32):
-            v |= v >> s
-        return (v + 1) & (2 ** 64 - 1)
-    sp = py_round(n * sps)
-    padded = math.ceil(n * max(padding, 1.0))
-    spaced = math.ceil(((n * nbuckets) & 0xffffffff) * sps)
-    if not pinned:      # fix 899923d: room for the last bucket's block
-        spaced = max(spaced, ((((nbuckets - 1) & 0xffffffff) * sp + n) & (2 ** 64 - 1)))
-    if roundp:
-        padded, spaced = upt(padded), upt(spaced)
-    return sp, padded, spaced, (spaced if nbuckets > 1 else padded)
+def gen_size_inputs(o):
+    """(zs, qs, bs) for Gen_ScalingZ.gen_sizes_list from a program configuration"""
+    import scaling_eval
+    return scaling_eval.zleaf_inputs(full_config(o))
+
+
+ROLE = {"O_getGridSize": "n", "N_getBunchCurrents": "nbuckets", "O_getPadding": "padding", "O_getRoundPadding": "roundp"}
+
+
+def gen_size_inputs_api(n, nbuckets, sps, padding, roundp):
+    """the same from bare numbers (API-level cases: no command line behind them)"""
+    import scaling_eval
+    inf = scaling_eval.info("Gen_ScalingZ")
+    vals = dict(n=n, nbuckets=nbuckets, padding=padding, roundp=roundp)
+
+    def val(name):
+        if name.startswith("V_"):
+            return sps
+        if name.endswith("_unused"):
+            return 0
+        if name not in ROLE:
+            raise RuntimeError("the generated size model reads %s, which the API-level generator does not know" % name)
+        return vals[ROLE[name]]
+    return [int(val(x)) for x in inf["zleaves"]], [float(val(x)) for x in inf["qleaves"]], [1 if val(x) else 0 for x in inf["bleaves"]]
+
+
+def gsizes_text(cid, zs, qs, bs):
+    return "gsizes %s %d %s %d %s %d %s\n" % (cid, len(zs), " ".join("%x" % z for z in zs), len(qs),
+                                              " ".join(qtok(Fraction(q)) for q in qs), len(bs), " ".join(str(b) for b in bs))
+
+
+def gen_sizes_batch(model, items):
+    """[(n, nbuckets, sps, padding, roundp)] -> [(spacing_bins, padded, wake_nmax)] through the extracted generated
+    functions (-1 = undefined conversion)"""
+    if not items:
+        return []
+    txt = "".join(gsizes_text("g%d" % i, *gen_size_inputs_api(*it)) for i, it in enumerate(items))
+    rc, out, err = run_driver(model, txt)
+    if rc != 0:
+        raise RuntimeError("model_bounds gsizes: " + err[-500:])
+    res = parse_cases(out)
+    outl = []
+    for i in range(len(items)):
+        r = [int(t, 16) if t != "-1" else -1 for t in res["g%d" % i]["sizes"][0]]
+        outl.append((r[0], r[1], r[2]))
+    return outl
 
 
 # ------------------------------------------------------------------ sanitizer output
@@ -146,6 +171,11 @@ def pmap(fn, items, workers=14):
 
 def cfg_args(cfg):
     a = ["--run_anyway", "1", "--gui", "0"]
+    import scaling_eval
+    cfg = dict(cfg)
+    fc = full_config(cfg)
+    for k in scaling_eval.size_options():         # every option the padded sizes depend on is given explicitly
+        cfg.setdefault(k, fc[k])
     for k, v in cfg.items():
         if k.startswith("_"):
             continue
